@@ -317,7 +317,7 @@ func splatPly(c *run.Ctx) (res run.Result) {
 	for k := 0; k < rest; k++ {
 		check1(fmt.Sprintf("f_rest_%d", k), fmt.Sprintf("f_rest_%d", k))
 	}
-	if c.Case < 8 && n <= 2 {
+	if c.Case < 2 {
 		res.Sample = map[string]any{"splats": n, "f_rest": rest, "normals": withNormals, "value_class": class, "export_bytes": len(data)}
 	}
 	return
